@@ -441,4 +441,5 @@ RULES = [
 	('15.h', 'node_id_to_descriptor is cleaned wherever a peer is removed, unconditionally on the handshake state', r15h),
 	('15.e', 'messages are encrypted / decrypted only in NoiseState::Finished, entered only by an authenticated act', r15e),
 	('15.p', 'same-name field transfer: structs carrying this property\'s quantities are filled from the same-named field or a reviewed alias (rules/provenance.py)', lambda F: provenance.for_property(F, 'C15', '15.p')),
+	('15.q', 'no call hands a value named like one parameter of the callee to a different parameter (swapped type-compatible arguments; rules/provenance.py)', lambda F: provenance.swaps_for_property(F, 'C15', '15.q')),
 ]
